@@ -47,7 +47,13 @@ def confirm(mid, prop, suite=True):
     dst = os.path.join(HERE, "seeded", mid)
     os.makedirs(dst, exist_ok=True)
     for f in ("patch.diff", "demo.py", "notes.md"):
-        shutil.copy(os.path.join(src, f), os.path.join(dst, f))
+        if os.path.exists(os.path.join(src, f)):
+            shutil.copy(os.path.join(src, f), os.path.join(dst, f))
+        elif not os.path.exists(os.path.join(dst, f)):
+            raise SystemExit(f"{f} neither in {src} nor in {dst}")
+    old_meta = {}
+    if os.path.exists(os.path.join(dst, "meta.json")):
+        old_meta = json.load(open(os.path.join(dst, "meta.json")))
     patch = os.path.join(dst, "patch.diff")
     env = dict(os.environ, PYTHONPATH=STUB, PYTHONDONTWRITEBYTECODE="1")
     meta = {"id": mid, "property": prop, "confirmed": {}}
@@ -76,6 +82,8 @@ def confirm(mid, prop, suite=True):
     meta["needs_to_manifest"] = "see notes.md"
     meta["what_i_ran"] = ("demo.py in a fresh scratch worktree of /repo without and with patch.diff; "
                           "pytest -n 16 xgcm with patch.diff applied; then the registered quick check(s) with XSIM_REPO=<scratch>")
+    if old_meta.get("checks"):
+        meta["checks"] = old_meta["checks"]
     json.dump(meta, open(os.path.join(dst, "meta.json"), "w"), indent=1)
     print(json.dumps(meta["confirmed"], indent=1))
     return ok
